@@ -28,8 +28,9 @@ func Equal(fg *FunctionGenerator) OperationMatrix {
 	m.Register(FloatTypeId, IntTypeId, func(_ funcGen.Stack[Value], a, b Value) (Value, error) {
 		return Bool(a.(Float) == Float(b.(Int))), nil
 	})
-	deepEqual := &operationMatrixDeepEqual{equal: m, ef: func(st funcGen.Stack[Value], a, b Value) (bool, error) {
-		eq, err := m.Calc(st, a, b)
+	var deepEqual *operationMatrixDeepEqual
+	deepEqual = &operationMatrixDeepEqual{equal: m, ef: func(st funcGen.Stack[Value], a, b Value) (bool, error) {
+		eq, err := deepEqual.Calc(st, a, b)
 		if err != nil {
 			return false, err
 		}
